@@ -43,7 +43,11 @@ CONSTANTS
                    \*   header, 2 = header complete, 3 = inside the payload)
     ResetChoices,  \* set of candidate sets of fields cleared by release() (subsets of AllFields); the
                    \*   set in force (`resets`) is chosen initially.  {AllFields} = the repaired code
-    TamperTags,    \* kinds of replaced frames: subset of {"corrupt","replay","strip","forge"}
+    TamperTags,    \* kinds of replaced frames: subset of {"corrupt","replay","strip","forge","recorded"}
+    CacheChoices,  \* candidate behaviours of the long-lived credential checker across connections; the one in
+                   \*   force (`cmode`) is chosen initially: "none" (the code: no state), or a deviation:
+                   \*   "payload" = payloads that passed the signature check once are accepted again without
+                   \*   looking at the endpoints; "peer" = a remote peer id verified once is not verified again
     Concurrent,    \* TRUE: sessions overlap arbitrarily; FALSE: session s starts after s-1 ended
     RecordHist     \* TRUE: keep the history variable (behaviour generation)
 
@@ -61,12 +65,17 @@ VARIABLES
     killed,   \* killed[s] : the transport of session s was cut by the adversary
     pooled,   \* bag of residual object contents in handshakePool
     resets,   \* the fields release() clears (constant during a behaviour)
+    recorded, \* credentials frames seen on any connection so far: what an observer can replay later
+    cmode,    \* behaviour of the long-lived checkers (constant during a behaviour), see CacheChoices
+    verified, \* state of the long-lived checkers: set of [c |-> side configuration, p |-> payload]
+              \*   (checker c accepted the signature payload p on an earlier connection); only
+              \*   maintained when cmode # "none"
     nf,       \* faults used so far
     tampered, \* tampered[s] : a frame of session s was replaced / injected
     hist      \* history (behaviour generation only)
 
-vars == <<sess, st, chan, killed, pooled, resets, nf, tampered, hist>>
-view == <<sess, st, chan, killed, pooled, resets, nf, tampered>>
+vars == <<sess, st, chan, killed, pooled, resets, recorded, cmode, verified, nf, tampered, hist>>
+view == <<sess, st, chan, killed, pooled, resets, recorded, cmode, verified, nf, tampered>>
 
 Sides == {"O", "I"}
 Ends == Sessions \X Sides
@@ -118,6 +127,9 @@ Rel(o) ==
 (* CheckCredential(remotePeerId, cred) of noVerifyChecker / peerSignVerifier, *)
 (* evaluated on the (merged) object.  code = handshakeproto.Error            *)
 CkErr(c) == [ok |-> FALSE, code |-> c, id |-> "-"]
+PeerKey(pid) == [NoPay EXCEPT !.k = "peer", !.a = pid]
+\* what the (deviating) checker remembers after accepting payload pay from remote peer rp
+CacheKey(pay, rp) == IF cmode = "peer" THEN PeerKey(rp) ELSE pay
 Check(e, o) ==
     LET c == Cfg(e)  rp == Cfg(Peer(e)).pid IN
     IF o.ver \notin c.acc THEN CkErr(6)                        \* IncompatibleVersion
@@ -126,7 +138,9 @@ Check(e, o) ==
     ELSE IF o.ctype # "signed" THEN CkErr(4)                   \* SkipVerifyNotAllowed
     ELSE IF o.pay.k = "unparse" THEN CkErr(3)                  \* UnexpectedPayload
     ELSE IF o.pay.k # "sig" THEN CkErr(2)                      \* no / malformed identity key
-    ELSE IF ~(o.pay.a = rp /\ o.pay.b = c.pid) THEN CkErr(2)   \* signature over other bytes
+    ELSE IF ~(o.pay.a = rp /\ o.pay.b = c.pid)                 \* signature over other bytes ...
+            /\ ~(cmode # "none" /\ [c |-> c, p |-> CacheKey(o.pay, rp)] \in verified)   \* (Dev: remembered)
+         THEN CkErr(2)
     ELSE IF Banned(o.cver) THEN CkErr(6)
     ELSE [ok |-> TRUE, code |-> 0, id |-> o.pay.id]
 
@@ -157,6 +171,7 @@ Init ==
     /\ killed = [s \in Sessions |-> FALSE]
     /\ pooled = EmptyBag
     /\ resets \in ResetChoices
+    /\ recorded = {} /\ verified = {} /\ cmode \in CacheChoices
     /\ nf = 0
     /\ tampered = [s \in Sessions |-> FALSE]
     /\ hist = <<>>
@@ -176,7 +191,7 @@ Released(e, o) == pooled' = pooled (+) SetToBag({Rel(o)})
 Open(s) ==
     /\ ~Opened(s) /\ \A s2 \in Sessions : s2 < s => Opened(s2)
     /\ \E d \in SessionSpace[s] : sess' = [sess EXCEPT ![s] = d]
-    /\ UNCHANGED <<st, chan, killed, pooled, nf, tampered, hist, resets>>
+    /\ UNCHANGED <<st, chan, killed, pooled, nf, tampered, hist, resets, recorded, verified, cmode>>
 
 \* newHandshake(): handshakePool.Get() finds nothing usable -> New()
 StartPc(e) == IF e[2] = "O" THEN "wcred" ELSE "rcred"
@@ -184,7 +199,7 @@ AcquireFresh(e) ==
     /\ st[e].pc = "idle" /\ MayStart(e[1])
     /\ st' = [st EXCEPT ![e] = [@ EXCEPT !.pc = StartPc(e), !.obj = ZeroObj]]
     /\ Log([a |-> "Acquire", s |-> e[1], side |-> e[2], fresh |-> TRUE, o |-> ZeroObj])
-    /\ UNCHANGED <<sess, chan, killed, pooled, nf, tampered, resets>>
+    /\ UNCHANGED <<sess, chan, killed, pooled, nf, tampered, resets, recorded, verified, cmode>>
 
 \* newHandshake(): handshakePool.Get() returns any object that was put back
 AcquirePooled(e) ==
@@ -193,7 +208,7 @@ AcquirePooled(e) ==
          /\ pooled' = pooled (-) SetToBag({o})
          /\ st' = [st EXCEPT ![e] = [@ EXCEPT !.pc = StartPc(e), !.obj = o]]
          /\ Log([a |-> "Acquire", s |-> e[1], side |-> e[2], fresh |-> FALSE, o |-> o])
-    /\ UNCHANGED <<sess, chan, killed, nf, tampered, resets>>
+    /\ UNCHANGED <<sess, chan, killed, nf, tampered, resets, recorded, verified, cmode>>
 
 WFrame(e) == CASE st[e].pc = "wcred" -> MakeCred(e)
                [] st[e].pc = "wack"  -> Ack(0)
@@ -215,8 +230,9 @@ WriteOk(e) ==
          [] st[e].pc = "ewack" ->                         \* tryWriteErrAndClose: ack + Close
               /\ st' = FinishSt(e, st[e].werr, TRUE)
               /\ Released(e, st[e].obj)
+    /\ recorded' = IF st[e].pc = "wcred" THEN recorded \cup {WFrame(e)} ELSE recorded
     /\ Log([a |-> "Write", s |-> e[1], side |-> e[2], f |-> WFrame(e), ok |-> TRUE])
-    /\ UNCHANGED <<sess, killed, nf, tampered, resets>>
+    /\ UNCHANGED <<sess, killed, nf, tampered, resets, verified, cmode>>
 
 \* a Write on a dead connection fails; so does the error ack; Close; release
 WriteFail(e) ==
@@ -224,7 +240,7 @@ WriteFail(e) ==
     /\ st' = FinishSt(e, IF st[e].pc = "ewack" THEN st[e].werr ELSE "io", TRUE)
     /\ Released(e, st[e].obj)
     /\ Log([a |-> "Write", s |-> e[1], side |-> e[2], f |-> WFrame(e), ok |-> FALSE])
-    /\ UNCHANGED <<sess, chan, killed, nf, tampered, resets>>
+    /\ UNCHANGED <<sess, chan, killed, nf, tampered, resets, recorded, verified, cmode>>
 
 CanRecv(e) == /\ st[e].pc \in ReadPcs /\ chan[e] # <<>>
               /\ ~st[e].stalled /\ ~killed[e[1]] /\ ~st[e].closed
@@ -298,7 +314,12 @@ Recv(e, q) ==
                       ToErrAck(e, st[e].obj, 1, "notHandshake", st[e].wire, TRUE)
                   ELSE Process(e, f)
        /\ Log([a |-> "Recv", s |-> e[1], side |-> e[2], q |-> q, f |-> f])
-    /\ UNCHANGED <<sess, killed, nf, tampered, resets>>
+    \* the checker remembers a signature payload it accepted (only in the deviating model)
+    /\ verified' = IF /\ cmode # "none" /\ Cfg(e).mode = "verify"
+                      /\ st[e].pc \in {"rcred", "rmsg"} /\ st'[e].pc \in {"wcred", "wack"}
+                   THEN verified \cup {[c |-> Cfg(e), p |-> CacheKey(st'[e].obj.pay, Cfg(Peer(e)).pid)]}
+                   ELSE verified
+    /\ UNCHANGED <<sess, killed, nf, tampered, resets, recorded, cmode>>
 
 \* Read on a dead connection: EOF / closed -> error ack fails too -> Close, release
 ReadDeadCond(e) ==
@@ -310,7 +331,7 @@ ReadDead(e) ==
     /\ st' = FinishSt(e, "io", TRUE)
     /\ Released(e, st[e].obj)
     /\ Log([a |-> "ReadDead", s |-> e[1], side |-> e[2]])
-    /\ UNCHANGED <<sess, chan, killed, nf, tampered, resets>>
+    /\ UNCHANGED <<sess, chan, killed, nf, tampered, resets, recorded, verified, cmode>>
 
 CanStep(e) == \/ st[e].pc = "idle" /\ MayStart(e[1])
               \/ st[e].pc \in WritePcs
@@ -325,7 +346,7 @@ Deadline(e) ==
     /\ st' = FinishSt(e, "ctx", TRUE)
     /\ Released(e, st[e].obj)
     /\ Log([a |-> "Deadline", s |-> e[1], side |-> e[2]])
-    /\ UNCHANGED <<sess, chan, killed, nf, tampered, resets>>
+    /\ UNCHANGED <<sess, chan, killed, nf, tampered, resets, recorded, verified, cmode>>
 
 (* ------------------------------ adversary / faults --------------------- *)
 Tag(f, t) == [f EXCEPT !.tag = t]
@@ -349,6 +370,8 @@ Replacements(e, f) ==
                    Sig(pr.id, "garbled", me.pid),
                    [NoPay EXCEPT !.k = "unparse"], [NoPay EXCEPT !.k = "badkey"]}}
      ELSE {})
+    \cup \* a credentials frame observed earlier on ANY connection (also of this verifier), replayed as it was
+    (IF f.t = "cred" THEN {Tag(r, "recorded") : r \in recorded \ {f}} ELSE {})
     \cup \* fields removed from the wire (zero values are not transmitted)
     (IF f.t = "cred" THEN
         {Tag([f EXCEPT !.ver = 0], "strip"), Tag([f EXCEPT !.cver = ""], "strip"),
@@ -364,7 +387,7 @@ Adv_Replace(e) ==
          /\ chan' = [chan EXCEPT ![e] = <<f2>> \o Tail(@)]
          /\ Log([a |-> "Replace", s |-> e[1], side |-> e[2], f |-> f2])
     /\ nf' = nf + 1 /\ tampered' = [tampered EXCEPT ![e[1]] = TRUE]
-    /\ UNCHANGED <<sess, st, killed, pooled, resets>>
+    /\ UNCHANGED <<sess, st, killed, pooled, resets, recorded, verified, cmode>>
 
 \* an unsolicited frame while the reader waits and nothing is in flight
 Injections(e) ==
@@ -378,7 +401,7 @@ Adv_Inject(e) ==
          /\ chan' = [chan EXCEPT ![e] = <<f2>>]
          /\ Log([a |-> "Inject", s |-> e[1], side |-> e[2], f |-> f2])
     /\ nf' = nf + 1 /\ tampered' = [tampered EXCEPT ![e[1]] = TRUE]
-    /\ UNCHANGED <<sess, st, killed, pooled, resets>>
+    /\ UNCHANGED <<sess, st, killed, pooled, resets, recorded, verified, cmode>>
 
 \* truncation: the rest of the frame in flight (beyond what e consumed) never arrives; the reader
 \* has consumed a truncated frame iff it already consumed a part of it
@@ -388,7 +411,7 @@ Adv_Stall(e) ==
     /\ st' = [st EXCEPT ![e] = [@ EXCEPT !.stalled = TRUE, !.taint = @ \/ st[e].got > 0]]
     /\ nf' = nf + 1
     /\ Log([a |-> "Stall", s |-> e[1], side |-> e[2], got |-> st[e].got])
-    /\ UNCHANGED <<sess, chan, killed, pooled, tampered, resets>>
+    /\ UNCHANGED <<sess, chan, killed, pooled, tampered, resets, recorded, verified, cmode>>
 
 \* the transport is cut: nothing in flight is delivered any more
 Adv_Kill(s) ==
@@ -397,7 +420,7 @@ Adv_Kill(s) ==
     /\ killed' = [killed EXCEPT ![s] = TRUE]
     /\ nf' = nf + 1
     /\ Log([a |-> "Kill", s |-> s, side |-> "-"])
-    /\ UNCHANGED <<sess, st, chan, pooled, tampered, resets>>
+    /\ UNCHANGED <<sess, st, chan, pooled, tampered, resets, recorded, verified, cmode>>
 
 \* context cancelled at a frame boundary (or inside a frame): like Deadline, at any time
 Adv_Cancel(e) ==
@@ -407,7 +430,7 @@ Adv_Cancel(e) ==
     /\ Released(e, st[e].obj)
     /\ nf' = nf + 1
     /\ Log([a |-> "Cancel", s |-> e[1], side |-> e[2]])
-    /\ UNCHANGED <<sess, chan, killed, tampered, resets>>
+    /\ UNCHANGED <<sess, chan, killed, tampered, resets, recorded, verified, cmode>>
 
 SysNext == \/ \E s \in Sessions : Open(s)
            \/ \E e \in Ends : \/ AcquireFresh(e) \/ AcquirePooled(e) \/ WriteOk(e) \/ WriteFail(e)
